@@ -72,3 +72,13 @@ func verifBatcherID(b *Batcher) uint64 { return uint64(uintptr(unsafe.Pointer(b)
 
 // VerifBatcherID is verifBatcherID for harness code.
 func VerifBatcherID(b *Batcher) uint64 { return verifBatcherID(b) }
+
+// verifTraceGet logs stream.get: "s.get offset seq" for a regular event, "s.gettmo streamID key"
+// for a time-out event (which carries no offset).
+func verifTraceGet(s *stream, event *Event) {
+	if event.IsTimeoutKind() {
+		verifTrace("s.gettmo", uint64(s.streamID), verifStreamKey(s))
+		return
+	}
+	verifTrace("s.get", uint64(event.Offset), event.SeqID)
+}
